@@ -726,7 +726,7 @@ FAMILIES = {
     "text": dict(jobs=text_jobs, attr=text_attr, record_timeout=1800),
     # small shards: events on 1000- and 2048-bit operands cost far more than the average, and a shard is one TLC process
     "wide": dict(jobs=wide_jobs, attr=lambda kind, op, tag, diag: ["C03", "C10"] if kind == "WCmp" else ["C10"], record_timeout=1800, shard=2000),
-    "fraction": dict(jobs=simple_jobs("h_fraction.cpp", "fraction"), attr=fraction_attr),
+    "fraction": dict(jobs=simple_jobs("h_fraction.cpp", "fraction"), attr=fraction_attr, shard=25000),
     "sqrt": dict(jobs=simple_jobs("h_sqrt.cpp", "sqrt"), attr=lambda kind, op, tag, diag: ["C19"]),
     "bits": dict(jobs=bits_jobs, attr=lambda kind, op, tag, diag: ["C18"]),
     "elastic": dict(jobs=elastic_jobs, attr=elastic_attr),
